@@ -6,6 +6,7 @@ import Bita.Proofs.CloneSound
 import Bita.Proofs.CloneNoJunk
 import Bita.Proofs.InPlace
 import Bita.Proofs.StepOrder
+import Bita.Proofs.OptionsCompose
 
 namespace Bita.Props.C02
 open Bita Bita.Spec
@@ -58,5 +59,17 @@ theorem clone_steps_as_modelled :
     Gen.cloneStepOrder = ["try_init", "banner", "pin", "open_output", "device_check", "scan_output", "reorder",
                           "seed_stdin", "seed_files", "fetch", "flush", "resize", "verify_output"] :=
   Proofs.clone_step_order_fact
+
+
+/-- **"Seed files and stdin, in any number and order", from the command line.**  What `clone_cmd`
+is handed for any accepted `bita clone` command line: every `--seed` value other than `-` is a seed
+file, in the order given (repeats and the output's own name included, nothing added or dropped),
+stdin is a seed iff `-` is among them, and in-place mode is on iff `--seed-output` was given. -/
+theorem cli_seeds_as_given (a : Options.CloneArgs) (p : Options.CloneParsed)
+    (hp : Options.parseClone a = .ok p) :
+    p.cmd.seedPaths = a.seeds.filter (· ≠ "-") ∧ p.seedStdin = a.seeds.contains "-" ∧
+    p.cmd.flags.seedOutput = a.seedOutput := by
+  obtain ⟨_, _, hfl, hs, hst, _⟩ := Proofs.parseClone_ok a p hp
+  exact ⟨hs, hst, by rw [hfl]⟩
 
 end Bita.Props.C02
